@@ -247,6 +247,29 @@ func c19Ipc(args []string) string {
 				<-cdone
 			}
 			pending = nil
+		case "gl":
+			// LoadGeoipDatabases as the SIGHUP handler calls it, polls of the period may still be waiting for a client:
+			// 0 = files that do not exist (the load fails), 1 = the repo's test files, 2 = a second pair of files
+			// (VERIF_C19_GEOIP_ALT_DIR) in which the same ranges belong to other countries
+			if len(f) != 2 {
+				return "!badcase"
+			}
+			dir := os.Getenv("VERIF_C19_GEOIP_DIR")
+			switch f[1] {
+			case "0":
+				if err := ctx.metrics.LoadGeoipDatabases(dir+"/no_such_geoip", dir+"/no_such_geoip6"); err == nil {
+					return "!driver loading files that do not exist succeeded"
+				}
+			case "1", "2":
+				if f[1] == "2" {
+					dir = os.Getenv("VERIF_C19_GEOIP_ALT_DIR")
+				}
+				if err := ctx.metrics.LoadGeoipDatabases(dir+"/test_geoip", dir+"/test_geoip6"); err != nil {
+					return "!geoip " + err.Error()
+				}
+			default:
+				return "!badcase"
+			}
 		case "pr":
 			barrier()
 			buf.Reset()
